@@ -5,6 +5,7 @@ import TrackVerif.Conv.Driver
 import TrackVerif.GP.Driver
 import TrackVerif.GPMF.Driver
 import TrackVerif.GPMF.Mp4Driver
+import TrackVerif.Geo.Driver
 /-
   Line-protocol driver.  One case per input line:
       AREA op arg… => impl-output-tokens…
@@ -35,6 +36,7 @@ def dispatch (line : String) : String :=
     | "GP" => GP.Driver.handle args impl
     | "GM" => GPMF.Driver.handle args impl
     | "M4" => GPMF.Mp4Driver.handle args impl
+    | "GE" => Geo.Driver.handle args impl
     | _ => "BAD"
 
 partial def loop (h : IO.FS.Stream) (out : IO.FS.Stream) : IO Unit := do
